@@ -11,10 +11,10 @@ PLAN = dict(
          "distinct = hash of program text + schedule descriptor",
     assumptions=SC_TSO + ["the input filter of the generated pipelines signals stop only when all n items were emitted (a parallel input filter may signal it several times)",
                           "live tokens are counted from entry of the input-filter body to exit of the last filter body (the library holds the token slightly longer, so the bound is sound)"],
-    floor=dict(quick=250, thorough=2500),
+    floor=dict(quick=450, thorough=13000),
     tiers=dict(
-        quick=[det("rel", H, "cs-rel", 16, 130, 4, tso=True, time_cap=30),
-               det("dbg", H, "cs-dbg", 16, 50, 4, tso=True, time_cap=25)],
+        quick=[det("rel", H, "cs-rel", 16, 200, 4, tso=True, time_cap=30),
+               det("dbg", H, "cs-dbg", 16, 80, 4, tso=True, time_cap=25)],
         thorough=[det("rel", H, "cs-rel", 16, 2600, 5, tso=True, time_cap=300),
                   det("dbg", H, "cs-dbg", 16, 800, 5, tso=True, time_cap=200),
                   det("enum-conflict", H, "cs-rel", 16, 60, 2, tso=True, time_cap=120, enum="conflict", enum_cap=150),
